@@ -48,6 +48,13 @@ ApplyOp(c, o) ==
       \* an item that is not a container / dict of integer tags, or spells one tag twice: refused, nothing changes
       \* (which of the library's message errors is raised is left open: o.bad names the defect for the driver only)
       [] o.op = "add_group_bad" -> [res |-> "err:refused", c |-> c]
+      \* a value set inside the index-th item of a group, through the item object the accessor returned
+      [] o.op = "nested_set" ->
+           IF ~IsGrp(c, o.tag) \/ o.index < 0 \/ o.index >= Len(Ent(c, o.tag).items) THEN [res |-> "unspecified", c |-> c]
+           ELSE LET its == Ent(c, o.tag).items
+                    it == its[o.index + 1]
+                    it2 == IF Has(it, o.ntag) THEN Replace(it, o.ntag, FEnt(o.ntag, o.sval)) ELSE Append(it, FEnt(o.ntag, o.sval))
+                IN [res |-> "ok", c |-> Replace(c, o.tag, GEnt(o.tag, [i \in DOMAIN its |-> IF i = o.index + 1 THEN it2 ELSE its[i]]))]
       [] o.op = "set_group" ->
            IF BadTag(o.sp) THEN [res |-> "err:FIXMessageError", c |-> c]
            ELSE IF Has(c, o.tag) THEN [res |-> "err:DuplicatedTagError", c |-> c]
